@@ -30,6 +30,15 @@ from lerax.space import Box, Discrete, MultiBinary, MultiDiscrete
 
 DIMS = (2, 3)
 OFFS = (0, 2)
+BLOCKS = [(0, 2), (2, 3)]
+
+
+def set_dims(dims):
+    """static configuration of the multi-categorical sections (component sizes)"""
+    global DIMS, OFFS, BLOCKS
+    DIMS = tuple(dims)
+    OFFS = tuple(int(x) for x in np.cumsum((0,) + DIMS[:-1]))
+    BLOCKS = list(zip(OFFS, DIMS))
 
 
 # ===================================================================== traced functions (real lerax code)
@@ -72,7 +81,7 @@ def mc_sel_fn(l, m, key):
 def mc_seq_fn(l, m, key):
     """the same law with logits and mask given as sequences"""
     with stubs.prng_stubs():
-        d = MultiCategorical([l[:2], l[2:]]).mask([m[:2], m[2:]])
+        d = MultiCategorical([l[o:o + n] for o, n in BLOCKS]).mask([m[o:o + n] for o, n in BLOCKS])
         return {"mode": d.mode(), "sample": d.sample(key), "probs": d.probs}
 
 
@@ -120,8 +129,9 @@ def mask_gen(name, av, rng):
     if "key" not in str(av.dtype) and np.dtype(av.dtype) == np.bool_ and av.shape:
         m = rng.random(av.shape) < 0.5
         m.reshape(-1)[0] = True
-        if av.shape == (5,):
-            m[2] = True
+        if av.shape == (sum(DIMS),):
+            for off in OFFS:
+                m[off] = True
         return jnp.asarray(m)
     return None
 
@@ -299,9 +309,6 @@ def mc_greedy(a, m, l, o):
     return conj(gs)
 
 
-BLOCKS = [(0, 2), (2, 3)]
-
-
 def jit_probe(fn, *args):
     """does the real function run under jax.jit?  (every lerax training loop calls policies/distributions inside jit/scan)"""
     try:
@@ -314,10 +321,18 @@ def jit_probe(fn, *args):
         jax.clear_caches()
 
 
-def sec_multicat(ck):
+def sec_multicat(ck, dims=(2, 3)):
+    set_dims(dims)
+    try:
+        _sec_multicat(ck, "(" + ",".join(map(str, dims)) + ")")
+    finally:
+        set_dims((2, 3))
+
+
+def _sec_multicat(ck, dt):
     N = sum(DIMS)
     ok, why = jit_probe(lambda l, m: MultiCategorical(l, action_dims=DIMS).mask(m).probs, jnp.zeros(N), jnp.ones(N, bool))
-    if not ck.fact("multicat.mask.usable_under_jit@dims=(2,3)", ok, "MultiCategorical(flat logits, action_dims).mask(mask) inside jax.jit: " + why):
+    if not ck.fact(f"multicat.mask.usable_under_jit@dims={dt}", ok, "MultiCategorical(flat logits, action_dims).mask(mask) inside jax.jit: " + why):
         ck.skip("multicat.mask.*", "the masked multi-categorical law cannot be traced (see multicat.mask.usable_under_jit)")
         return
     tr = trace(mc_probs_fn, jnp.zeros(N), jnp.ones(N, bool), argnames=["l", "m"], label="MultiCategorical(flat logits, dims).mask(m).probs")
@@ -346,9 +361,9 @@ def sec_multicat(ck):
     for off, n in BLOCKS:
         qa = sum(z3.If(m[off + j], q[off + j], 0) for j in range(n))
         ren += [sum(p[off + j] for j in range(n)) == 1] + [implies(m[off + j], p[off + j] * qa == q[off + j]) for j in range(n)]
-    ck.prove("multicat.mask.prob_zero@dims=(2,3)", asm, conj([side] + [implies(neg(m[i]), p[i] == 0) for i in range(N)]), replay=rp, nonlinear=True)
-    ck.prove("multicat.mask.renormalised@dims=(2,3)", asm, conj([side] + ren), replay=rp, nonlinear=True)
-    ck.control("control.multicat.renormalised_over_all_components", asm, conj([implies(m[i], p[i] * sum(z3.If(m[j], q[j], 0) for j in range(N)) == q[i]) for i in range(N)]), nonlinear=True)
+    ck.prove(f"multicat.mask.prob_zero@dims={dt}", asm, conj([side] + [implies(neg(m[i]), p[i] == 0) for i in range(N)]), replay=rp, nonlinear=True)
+    ck.prove(f"multicat.mask.renormalised@dims={dt}", asm, conj([side] + ren), replay=rp, nonlinear=True)
+    ck.control(f"control.multicat.renormalised_over_all_components@{dt}", asm, conj([implies(m[i], p[i] * sum(z3.If(m[j], q[j], 0) for j in range(N)) == q[i]) for i in range(N)]), nonlinear=True)
 
     trs = trace(mc_sel_fn, jnp.zeros(N), jnp.ones(N, bool), jr.key(0), argnames=["l", "m", "key"], label="MultiCategorical(flat logits, dims).mask(m).mode/sample")
     ck.encoded(trs)
@@ -358,9 +373,9 @@ def sec_multicat(ck):
     ox = trs.run(ix, Sx)
     lx, mx = list(Sx["l"]), list(Sx["m"])
     asx = mc_asm(mx) + stubs.contracts(ix)
-    ck.prove("multicat.mask.mode_allowed@dims=(2,3)", asx, conj([mc_allowed(ox["mode"], mx), mc_greedy(ox["mode"], mx, lx, ix.o)]),
+    ck.prove(f"multicat.mask.mode_allowed@dims={dt}", asx, conj([mc_allowed(ox["mode"], mx), mc_greedy(ox["mode"], mx, lx, ix.o)]),
              replay=judge_replay(trs, Sx, ix.uf_apps, lambda o_, i_: jidx(o_, i_, "mode", blocks=BLOCKS)))
-    ck.prove("multicat.mask.sample_allowed@dims=(2,3)", asx, conj([mc_allowed(ox["sample"], mx), mc_allowed(ox["sample2"], mx)]),
+    ck.prove(f"multicat.mask.sample_allowed@dims={dt}", asx, conj([mc_allowed(ox["sample"], mx), mc_allowed(ox["sample2"], mx)]),
              replay=judge_replay(trs, Sx, ix.uf_apps, lambda o_, i_: (jidx(o_, i_, "sample", blocks=BLOCKS)[0] or jidx(o_, i_, "sample2", blocks=BLOCKS)[0], jidx(o_, i_, "sample", blocks=BLOCKS)[1])))
     # sequence form of logits and mask
     trq = trace(mc_seq_fn, jnp.zeros(N), jnp.ones(N, bool), jr.key(0), argnames=["l", "m", "key"], label="MultiCategorical(sequence logits).mask(sequence mask)")
@@ -369,7 +384,7 @@ def sec_multicat(ck):
     Sq = trq.symbols(iq)
     oq = trq.run(iq, Sq)
     lq, mq = list(Sq["l"]), list(Sq["m"])
-    ck.prove("multicat.mask.mode_allowed@sequence", mc_asm(mq) + stubs.contracts(iq), conj([mc_allowed(oq["mode"], mq), mc_greedy(oq["mode"], mq, lq, iq.o), mc_allowed(oq["sample"], mq)]),
+    ck.prove(f"multicat.mask.mode_allowed@sequence,dims={dt}", mc_asm(mq) + stubs.contracts(iq), conj([mc_allowed(oq["mode"], mq), mc_greedy(oq["mode"], mq, lq, iq.o), mc_allowed(oq["sample"], mq)]),
              replay=judge_replay(trq, Sq, iq.uf_apps, lambda o_, i_: (jidx(o_, i_, "mode", blocks=BLOCKS)[0] or jidx(o_, i_, "sample", blocks=BLOCKS)[0], jidx(o_, i_, "mode", blocks=BLOCKS)[1])))
 
 
@@ -504,7 +519,7 @@ def sec_ac(ck, case):
     out = tr0.run(it, S)
     m = list(S["m"])
     L = uf_terms(it, "ALIN")
-    ck.fact(f"ac.{nm}.single_parameter_layer_application", len(L) == case.nlog, f"ALIN applications: {len(L)}")
+    assert len(L) == case.nlog, f"harness: expected one application of the parameter layer, found {len(L)} result terms"
     asm = case_asm(case, m)
     ck.prove(f"ac.{nm}.mask.action_allowed@nokey", asm, case_allowed(case, out["a"], m, L, it.o, greedy=True), replay=judge_replay(tr0, S, it.uf_apps, case_judge(case)))
     rr = trr.run(it, trr.symbols(it, given={"L": np.array(L, dtype=object), "m": S["m"]}))
@@ -641,15 +656,20 @@ def sec_q(ck, K, eps_list):
         a = oe["a"][()]
         ck.prove(f"q.mask.action_allowed@eps={eps},K={K}", ase, allowed_idx(a, me), replay=judge_replay(tre, Se, ite.uf_apps, jq))
         if eps <= 0:
-            ok, why = no_prng(tre)
-            ck.fact(f"q.eps_nonpositive_is_greedy.no_prng@eps={eps}", ok, why)
             ck.prove(f"q.eps_nonpositive_is_greedy@eps={eps},K={K}", ase, greedy_idx(a, me, Qe, ite.o), replay=_greedy_replay(tre, Se, ite, "QNET"))
         else:
             us = uf_terms(ite, "RAND_u01")
-            ck.fact(f"q.eps_greedy_bound.single_uniform_draw@eps={eps}", len(us) == 1, f"uniform draws in the trace: {len(us)}")
+            assert len(us) == 1, f"harness: expected one uniform draw in the epsilon-greedy trace, found {len(us)}"
             u = us[0]
             e32 = Fraction(float(np.float32(eps)))
-            ck.prove(f"q.eps_greedy_bound@eps={eps},K={K}", ase + [u >= e32], greedy_idx(a, me, Qe, ite.o), replay=_greedy_replay(tre, Se, ite, "QNET"))
+            # departure event inside {u < eps}; an implementation testing the upper tail {u >= 1 - eps} is equally within the statement
+            greedy = greedy_idx(a, me, Qe, ite.o)
+            region = [u >= e32]
+            alt = ase + [u < 1 - e32, neg(greedy)]
+            if solve.decide(ase + region + [neg(greedy)] + solve.instantiate_axioms(ase + [neg(greedy)]), timeout_s=60).status == "sat" and \
+                    solve.decide(alt + solve.instantiate_axioms(alt), timeout_s=60).status == "unsat":
+                region = [u < 1 - e32]
+            ck.prove(f"q.eps_greedy_bound@eps={eps},K={K}", ase + region, greedy, replay=_greedy_replay(tre, Se, ite, "QNET"))
             ck.witness(f"witness.q.explores@eps={eps}", ase + [u < e32, neg(greedy_idx(a, me, Qe, ite.o))])
             ck.control(f"control.q.greedy_when_exploring@eps={eps}", ase + [u < e32], greedy_idx(a, me, Qe, ite.o))
     # without a mask
@@ -715,11 +735,40 @@ def sec_sac(ck, shape):
     ck.control(f"control.sac.{tag}.key_action_is_mode", asm, eq_arr(out["a_key"], out["mode"]), nonlinear=True)
 
 
+def tame_region(formulas):
+    """replay-robustness region (margin query of ck.prove): when an obligation fails, a counterexample is first looked for among tame
+    inputs (logits / Q-values / features in [-2, 2], LOG-mode positives in [1/2, 2]) so that it survives float32 on the real code;
+    the obligation itself is unrestricted"""
+    out, seen = [], set()
+    stack = [f for f in formulas if isinstance(f, z3.ExprRef)]
+    while stack:
+        t = stack.pop()
+        if t.get_id() in seen:
+            continue
+        seen.add(t.get_id())
+        if z3.is_app(t):
+            if t.decl().kind() == z3.Z3_OP_UNINTERPRETED and z3.is_real(t):
+                nm = t.decl().name()
+                if t.num_args() == 0 and nm not in ("INF", "NaN"):
+                    out.append(z3.And(t >= Fraction(1, 2), t <= 2) if nm[:2] in ("P_", "E_") else z3.And(t >= -2, t <= 2))
+                elif nm.split("#")[0] in ("ALIN", "QNET", "MEAN", "LSTD"):
+                    out.append(z3.And(t >= -2, t <= 2))
+            stack.extend(t.children())
+    return out
+
+
 def main():
     ck = Check("C16", "Masked actions are never chosen; key-less policies act greedily")
+    _prove = ck.prove
+
+    def prove(oid, asm, goal, **kw):
+        if "margin_goal" not in kw and not isconc(goal) and not kw.get("ackermann"):
+            kw["margin_goal"] = implies(conj(tame_region(list(asm) + [goal])), goal)
+        return _prove(oid, asm, goal, **kw)
+    ck.prove = prove
     ck.mode = "LOG (probabilities under masks), XREAL = reals + IEEE -inf/+inf/NaN (which index mode/sample/policies return), FP32 bit-precise (two actions), REAL (SAC identities)"
-    Ks = [2, 3, 5] if not ck.thorough else [2, 3, 4, 5]
-    ck.bound(categorical_K=Ks, bernoulli_n=3, multicategorical_dims=list(DIMS), policy_spaces=["Discrete(3)", "MultiDiscrete((2,3))", "MultiBinary(3)"],
+    Ks = [2, 3, 5] if not ck.thorough else [2, 3, 4, 5, 6, 7]
+    ck.bound(categorical_K=Ks, bernoulli_n=3, multicategorical_dims=[[2, 3]] + ([[2, 3, 2]] if ck.thorough else []), policy_spaces=["Discrete(3)", "MultiDiscrete((2,3))", "MultiBinary(3)"],
              q_policy_K=[3] if not ck.thorough else [3, 5], epsilons=[0.1, 0.0, -0.5] + ([1.0, 0.5] if ck.thorough else []), sac_action_shapes=["()", "(2,)"],
              fp32="full mask->normalise->gumbel-argmax pipeline bit-precise for K=2, logits in [-1e30, 1e30]" + ("" if ck.thorough else " (thorough tier only)"),
              note="masks are symbolic Boolean vectors with at least one allowed action (per component); logits/Q-values/features are arbitrary finite reals; keys symbolic")
@@ -744,8 +793,9 @@ def main():
             sec_categorical_fp32(ck, trs2, 2)
     with ck.section("bernoulli"):
         sec_bernoulli(ck)
-    with ck.section("multicategorical"):
-        sec_multicat(ck)
+    for dims in ([(2, 3)] if not ck.thorough else [(2, 3), (2, 3, 2)]):
+        with ck.section(f"multicategorical{dims}"):
+            sec_multicat(ck, dims)
     for case in space_cases(3):
         with ck.section(f"actor_critic.{case.name}"):
             sec_ac(ck, case)
